@@ -33,6 +33,29 @@ def replay(prop, path):
             if w:
                 print('recorded witness:', json.dumps(w))
             return 1
+        if rec.get('backend') == 'kani':
+            # re-run the recorded harness on the real crates compiled from the current tree (with concrete playback of the counterexample)
+            import kani_run
+            name = rec['obligation'].split('kani::', 1)[1]
+            groups = list(cfg.get('kani', [])) + [f['group'] for f in cfg.get('fallback', [])]
+            for g in groups:
+                hs = [h for h in g['harnesses'] if h['name'] == name]
+                if hs:
+                    g2 = dict(g)
+                    h2 = dict(hs[0])
+                    h2['playback'] = True
+                    h2.pop('tier', None)
+                    g2['harnesses'] = [h2]
+                    kr = kani_run.run_group(g2, scratch, 'thorough')
+                    h = kr['harnesses'][0]
+                    print('harness %s: %s' % (name, h['status']))
+                    if h['status'] == 'failed':
+                        print('STILL FAILS:', h.get('failed_check'))
+                        print('counterexample (kani concrete playback):', json.dumps(h.get('witness')))
+                        return 1
+                    return 0 if h['status'] == 'success' else 2
+            print('harness no longer registered')
+            return 2
         print('no replay procedure for backend', rec.get('backend'))
         return 2
     finally:
